@@ -53,7 +53,7 @@ theorem plan_covers (op : Op) (refset : TSet) (res : Res) (t : TSel)
 returns exactly the known selections `t` for which `refset OP t` holds, the references themselves
 excluded, each once. -/
 theorem find_exact (op : Op) (refset : TSet) (sels : List TSel) (res : Res)
-    (hop : op.isEqualsSpecial = false) (hnd : sels.Nodup) (hsel : SelsWF sels res)
+    (hop : specialFor op refset = false) (hnd : sels.Nodup) (hsel : SelsWF sels res)
     (href : ∀ r ∈ refset.items, r.b ≤ r.e) :
     ∃ l, find op refset sels res = .ok l ∧ l.Nodup ∧
       ∀ t, t ∈ l ↔ (t ∈ sels ∧ setTest op refset t res = true ∧ t ∉ refset.items) := by
@@ -80,7 +80,7 @@ theorem find_exact (op : Op) (refset : TSet) (sels : List TSel) (res : Res)
 
 /-- for a single reference the set-level test is the pairwise relation of C13 -/
 theorem find_exact_single (op : Op) (r : TSel) (srt : Bool) (sels : List TSel) (res : Res)
-    (hop : op.isEqualsSpecial = false) (hnd : sels.Nodup) (hsel : SelsWF sels res) (hr : r.b ≤ r.e) :
+    (hop : specialFor op ⟨[r], srt⟩ = false) (hnd : sels.Nodup) (hsel : SelsWF sels res) (hr : r.b ≤ r.e) :
     ∃ l, find op ⟨[r], srt⟩ sels res = .ok l ∧ l.Nodup ∧
       ∀ t, t ∈ l ↔ (t ∈ sels ∧ test op r t res = true ∧ t ≠ r) := by
   obtain ⟨l, h1, h2, h3⟩ := find_exact op ⟨[r], srt⟩ sels res hop hnd hsel (by intro x hx; simp at hx; subst hx; exact hr)
@@ -89,12 +89,12 @@ theorem find_exact_single (op : Op) (r : TSel) (srt : Bool) (sels : List TSel) (
 
 /-- **only equality returns the reference itself**: plain equality yields the known selection with
 the reference's own range (if it is known), nothing else -/
-theorem find_equals (r : TSel) (srt : Bool) (sels : List TSel) (res : Res) :
-    find (.equals false false) ⟨[r], srt⟩ sels res = .ok (if r ∈ sels then [r] else []) := by
-  simp [find, Op.isEqualsSpecial, equalsSpecial]
+theorem find_equals (al : Bool) (r : TSel) (srt : Bool) (sels : List TSel) (res : Res) :
+    find (.equals al false) ⟨[r], srt⟩ sels res = .ok (if r ∈ sels then [r] else []) := by
+  cases al <;> simp [find, specialFor, equalsSpecial]
 
 theorem find_excludes_reference (op : Op) (refset : TSet) (sels : List TSel) (res : Res)
-    (hop : op.isEqualsSpecial = false) (l : List TSel) (h : find op refset sels res = .ok l) :
+    (hop : specialFor op refset = false) (l : List TSel) (h : find op refset sels res = .ok l) :
     ∀ t ∈ l, t ∉ refset.items := by
   unfold find at h
   simp only [hop, Bool.false_eq_true, if_false] at h
